@@ -47,9 +47,9 @@ def make_mesh(cell, geom, tp=False):
     return ufl.Mesh(ce), gdim, deg
 
 
-def tp_element(cell, degree, shape=None):
+def tp_element(cell, degree, shape=None, variant=None):
     """Tensor-product-ordered Lagrange element (the only kind sum factorisation supports)."""
-    e = basix.ufl.wrap_element(basix.create_tp_element(basix.ElementFamily.P, getattr(basix.CellType, cell), degree, basix.LagrangeVariant.gll_warped))
+    e = basix.ufl.wrap_element(basix.create_tp_element(basix.ElementFamily.P, getattr(basix.CellType, cell), degree, variant or basix.LagrangeVariant.gll_warped))
     return e if shape is None else basix.ufl.blocked_element(e, shape=shape)
 
 
@@ -172,6 +172,9 @@ def build(cfg) -> Built:
     Vu = ufl.FunctionSpace(mesh, make_element(uname, cell, gdim, tp))
     V1 = ufl.FunctionSpace(mesh, tp_element(cell, 1) if tp else basix.ufl.element("P", cell, 1))
     V2 = ufl.FunctionSpace(mesh, tp_element(cell, 2) if tp else basix.ufl.element("P", cell, 2))
+    if tp and cfg.get("tpmixed"):
+        # a coefficient in a tensor-product space of the same degree as the arguments but another Lagrange variant (different 1D bases)
+        V2 = ufl.FunctionSpace(mesh, tp_element(cell, ELEMENT_DEGREE[tname], variant=basix.LagrangeVariant.equispaced))
     f = ufl.Coefficient(V1)
     g = ufl.Coefficient(V2)
     B.coefficients = {"f": f, "g": g}
